@@ -31,11 +31,17 @@ class FeatureIDEWriter(ModelToText):
 
     def transform(self) -> str:
         fm_tree = _to_featureidexml(self._source_model).getroot()
+        # Indent with ElementTree itself: it keeps tabs and line breaks of names as character
+        # references in attribute values (minidom's pretty printer writes them raw, and an
+        # XML parser then reads them back as blanks)
+        ElementTree.indent(fm_tree, space="\t")
         xml_str = ElementTree.tostring(fm_tree,
                                        encoding='UTF-8',
                                        method='xml',
                                        xml_declaration=True)
-        xml_str = prettify(xml_str)
+        # In element text ElementTree writes a carriage return raw, and a parser reads it as a
+        # line break: write it as a character reference too (attribute values already are)
+        xml_str = xml_str.replace(b"\r", b"&#13;")
         if self._path is not None:
             with open(self._path, 'wb') as file:
                 file.write(xml_str)
